@@ -18,6 +18,28 @@ CLAIMS = {
         "property's own definition (item-wise prefix) on the same grammars to produce concrete failing inputs.",
    design="6/C18", technique="Coq proof (list-prefix characterisation) + vm_compute correspondence with validator.py"),
 }
+CLAIMS["C14"] = dict(
+   text="Coq theorems (Props/C14.v), unbounded in the raw stream and in the operation sequence: every run of "
+        "peek/getnext/mark/reset/diagnose/last-non-whitespace refines an abstract cursor over the filtered token list "
+        "(token returned = function of the cursor index; reset+getnext replays; diagnose returns the furthest fetched "
+        "token and never moves the cursor); laziness invariant on the number of items pulled; the line table holds the "
+        "real text of every line a pulled token touches, get_lines answers identically with and without a path. The "
+        "model (Runtime/Tokenizer.v) is tied to tokenizer.py by correspondence on op sequences over real and synthetic "
+        "token streams; the property's abstract cursor is also run against the implementation directly.",
+   design="6/C14", technique="Coq refinement proof (invariant over op sequences) + vm_compute correspondence with tokenizer.py",
+   note="Assumes tokenize's contract that TokenInfo.line is the text of the physical lines the token spans. Known finding: "
+        "a line holding only a backslash continuation is not recoverable (see known_findings.json).")
+CLAIMS["C16"] = dict(
+   text="Coq theorems (Props/C16.v). Unbounded (any graph, any component list, any iteration order): the leader "
+        "candidate set computed from the enumerated cycles equals the set of members lying on every simple cycle; the "
+        "designated leader is such a member; ValueError is raised only if every member is avoided by some cycle and never "
+        "if some member lies on every cycle; singleton groups are cyclic iff self-loop. SCC computation: exhaustive kernel "
+        "evaluation for all digraphs on <= 3 vertices under all vertex and adjacency orders and all 65536 4-vertex digraphs "
+        "under 2x2 orders (bounds in the statements). Model tied to sccutils.py/compute_left_recursives by correspondence "
+        "(exhaustive <= 3 vertices x all orders, 4 vertices sampled/all, 5-7 vertices sampled) with a brute-force oracle "
+        "of the property run on the implementation.",
+   design="6/C16", technique="Coq proof (DFS cycle enumeration sound+complete, unbounded) + exhaustive vm_compute for SCC <= 4 vertices + correspondence",
+   note="The unbounded SCC-algorithm theorem is not proved; SCC correctness beyond 4 vertices rests on the correspondence with a brute-force oracle.")
 NOT_YET = {}
 NOT_APPLICABLE = {
  "C06": "equates the generated parser with CPython's own C parser/ast.parse, for which no executable model exists "
